@@ -134,18 +134,36 @@ def andnot_int(a, b):
     return z3.BV2Int(bv32(a) & ~bv32(b), False)
 
 
+def guarded_check(s, timeout_ms, *assumptions):
+    """solver.check with a hard stop: z3's own timeout is not honoured inside some quantifier/lambda loops, so a
+    timer thread interrupts the context shortly after the budget."""
+    import threading
+    t = threading.Timer(timeout_ms / 1000.0 + 1.5, s.ctx.interrupt)
+    t.daemon = True
+    t.start()
+    try:
+        return s.check(*assumptions)
+    except z3.Z3Exception:
+        return z3.unknown
+    finally:
+        t.cancel()
+
+
 def check(assertions, timeout_ms=10000):
     """Return ('sat', model) | ('unsat', None) | ('unknown', reason)."""
     s = z3.Solver()
     s.set("timeout", timeout_ms)
     for a in assertions:
         s.add(a)
-    r = s.check()
+    r = guarded_check(s, timeout_ms)
     if r == z3.sat:
         return "sat", s.model()
     if r == z3.unsat:
         return "unsat", None
-    return "unknown", s.reason_unknown()
+    try:
+        return "unknown", s.reason_unknown()
+    except z3.Z3Exception:
+        return "unknown", "interrupted"
 
 
 def to_smt2(assertions) -> str:
